@@ -635,7 +635,7 @@ var reHelperName = regexp.MustCompile(`([A-Za-z0-9_]*(?:⟨#field:funcCounter⟩
 
 // MangleRule: a helper allocated in a method is named the same way wherever the
 // method writes or returns it (inside a function: mangled everywhere or nowhere).
-func MangleRule(w *World, b *Backend, r *Result, rule string) {
+func MangleRule(w *World, b *Backend, r *Result, rule string, only ...string) {
 	const inFunc = "if:len(field:funcs)>0"
 	var names []string
 	for n := range b.X.Methods {
@@ -643,6 +643,9 @@ func MangleRule(w *World, b *Backend, r *Result, rule string) {
 	}
 	sort.Strings(names)
 	for _, name := range names {
+		if len(only) > 0 && !contains(only, name) {
+			continue
+		}
 		mf := b.X.Methods[name]
 		forms := map[string]map[string]bool{} // activation -> name stems seen (in-function view)
 		where := map[string][]string{}
